@@ -1,10 +1,19 @@
 (* C08 - the output depends only on the source: deterministic, configuration- and entry-point-free.
-   Statements only; proofs are `exact <lemma>` (proofs/DetP.v) or evaluation of the regenerated tables.
+   Statements only; proofs are `exact <lemma>` (proofs/DetP.v, proofs/LangP.v) or evaluation of the regenerated tables.
 
    PARTIAL BY NATURE. What is proved here, about the Gallina model and the regenerated data of /repo:
-     * `Compile.compile` is a Gallina function of the source text alone - the model has no process state, no hash
-       seed, no debug level, no message language and no entry point to depend on, so "same source, same output"
-       holds of the model by construction and is not restated as a theorem;
+     * `Compile.compile_lang ja` is a Gallina function of the message language and the source text - the model has no
+       process state, no hash seed, no debug level and no entry point to depend on, so "same source, same output" holds of
+       the model by construction and is not restated as a theorem;
+     * THE MESSAGE LANGUAGE (Song::set_language -> song.message_data, read only through song.get_message) is carried by the
+       model: a flag of the lexer state and of the song (lx_ja, s_ja; `compile src = compile_lang false src`), every log
+       site writes `msg_X ja`, the text of the regenerated catalogue in that language.  Proved for EVERY source (no
+       fragment restriction, Unsupported / OutOfFuel / Panic outcomes included): the two languages give the same outcome
+       and THE SAME BYTES; the lexer reads the same tokens; the song after lex and exec differs in the log and the flag
+       only; the logs have the same number of entries, entry by entry equal up to the language of the catalogue messages
+       they contain (`txtR`).  The same for the script-layer pipeline (Script.compile_script_lang).  The proof relates two
+       runs whose states are equal except for the flag and the wording of the log: the caps (lx_add_log, add_log,
+       lex_error) read the LENGTH of the log only, and get_logs_str cuts by characters after everything else is done;
      * the places where an ORDER exists in the code cannot reach the output: table lookups do not depend on the
        order of insertion (names pairwise distinct - checked on the regenerated table), and the numbering that
        init_reserved_words takes from the iteration order of a HashMap is never read (only contains_key is);
@@ -17,14 +26,16 @@
        what the listed sites do.
    What is NOT provable here and is covered by differential runs only (tools/props/c08.py, on the implementation):
      fresh processes and fresh HashMap seeds (RandomState), compilations made earlier in the same process, the
-     equality of the three library entry points, debug 0/1 and language en/ja leaving the bytes alone (the model
-     carries neither), and the command-line tool (argument parsing, file I/O, reseeding from the clock).
-   The tie of the model to the implementation is re-established on every run in separate processes, so a hidden
-   dependence of the implementation on process state also shows as a broken correspondence. *)
+     equality of the three library entry points, debug 0/1 leaving the bytes alone (the model carries no debug level:
+     in the code `debug` only guards println! sites - pinned by the census of C19, observed on the process), and the
+     command-line tool (argument parsing, file I/O, reseeding from the clock).
+   The tie of the model to the implementation is re-established on every run in separate processes - in BOTH languages
+   (compile_core / compile_core_ja vs lex/exec/generate with set_language) - so a hidden dependence of the
+   implementation on process state or on the language also shows as a broken correspondence. *)
 From Coq Require Import ZArith List Bool Permutation String.
-From Sakura.Model Require Import Base LexCore Reserve.
+From Sakura.Model Require Import Base Song Token LexCore Reserve Compile Msg Script.
 From Sakura.Gen Require Import Consts SysFuncRows WriteSites.
-From Sakura.Proofs Require Import DetP.
+From Sakura.Proofs Require Import DetP LangP LangScriptP.
 Import ListNotations.
 Open Scope Z_scope.
 
@@ -108,6 +119,79 @@ Theorem C08_write_sites :
   reserved_words_other_uses = [] /\ reserved_words_lookups <> [].
 Proof. repeat split; try reflexivity; discriminate. Qed.
 
+
+(* ---- the message language (every source; `j1 j2 : bool` are two languages, false = en, true = ja) ---- *)
+(* `txtR a b` (proofs/LangP.v): the texts a and b are built from the same pieces, where a piece is either the same
+   literal text on both sides or a catalogue message (Msg.all_messages) in any two languages *)
+Theorem C08_text_relation :
+  (forall l, txtR l l) /\
+  (forall (m : bool -> list Z) j1 j2, In m all_messages -> txtR (m j1) (m j2)) /\
+  (forall a b c d, txtR a b -> txtR c d -> txtR (a ++ c) (b ++ d)) /\
+  (forall a b, txtR a b -> (a = [] <-> b = [])).
+Proof. exact (conj txt_same (conj txt_msg (conj txt_app txtR_nil))). Qed.
+
+(* the lexer: the same tokens, the same time base / variables / rhythm table, logs equal entry by entry up to the language *)
+Theorem C08_language_lexer : forall (j1 j2 : bool) (tb : Z) (vars : list (list Z * vval)) (rhythm : list (Z * list Z)) (src : list Z) (ln : Z),
+  match lex (mkLex tb [] vars rhythm j1) src ln, lex (mkLex tb [] vars rhythm j2) src ln with
+  | Ok (toks1, ls1), Ok (toks2, ls2) =>
+      toks1 = toks2 /\ lx_timebase ls1 = lx_timebase ls2 /\ lx_vars ls1 = lx_vars ls2 /\ lx_rhythm ls1 = lx_rhythm ls2 /\
+      Forall2 txtR (lx_logs ls1) (lx_logs ls2)
+  | Panic p, Panic q => p = q
+  | OutOfFuel, OutOfFuel => True
+  | Unsupported u, Unsupported v => u = v
+  | _, _ => False
+  end.
+Proof. exact language_lexer. Qed.
+
+(* the pipeline: the same outcome and, when there is a file, THE SAME BYTES *)
+Theorem C08_language_noninterference : forall (j1 j2 : bool) (src : list Z),
+  match compile_lang j1 src, compile_lang j2 src with
+  | Ok (bytes1, _), Ok (bytes2, _) => bytes1 = bytes2
+  | Panic p, Panic q => p = q
+  | OutOfFuel, OutOfFuel => True
+  | Unsupported u, Unsupported v => u = v
+  | _, _ => False
+  end.
+Proof. exact language_noninterference. Qed.
+
+(* the song after lex and exec differs between two languages in s_logs and the flag only; the logs have the same number of
+   entries, equal entry by entry up to the language of the messages *)
+Theorem C08_language_only_in_log : forall (j1 j2 : bool) (src : list Z),
+  match run_source_lang j1 src, run_source_lang j2 src with
+  | Ok s1, Ok s2 =>
+      s_set_ja (s_set_logs s1 []) false = s_set_ja (s_set_logs s2 []) false /\
+      Forall2 txtR (s_logs s1) (s_logs s2) /\ length (s_logs s1) = length (s_logs s2)
+  | Panic p, Panic q => p = q
+  | OutOfFuel, OutOfFuel => True
+  | Unsupported u, Unsupported v => u = v
+  | _, _ => False
+  end.
+Proof. exact language_only_in_log. Qed.
+
+(* the script-layer pipeline (model/Script.v: PRINT, variables, IF / WHILE / FOR with the loop limit, user functions): the same *)
+Theorem C08_language_script_noninterference : forall (j1 j2 : bool) (src : list Z),
+  match compile_script_lang j1 src, compile_script_lang j2 src with
+  | Ok (bytes1, _), Ok (bytes2, _) => bytes1 = bytes2
+  | Panic p, Panic q => p = q
+  | OutOfFuel, OutOfFuel => True
+  | Unsupported u, Unsupported v => u = v
+  | _, _ => False
+  end.
+Proof. exact language_script_noninterference. Qed.
+Theorem C08_language_script_only_in_log : forall (j1 j2 : bool) (src : list Z),
+  match run_script_lang j1 src, run_script_lang j2 src with
+  | Ok st1, Ok st2 =>
+      ss_scopes st1 = ss_scopes st2 /\ ss_funcs st1 = ss_funcs st2 /\ ss_needs st1 = ss_needs st2 /\
+      s_set_ja (s_set_logs (ss_song st1) []) false = s_set_ja (s_set_logs (ss_song st2) []) false /\
+      Forall2 txtR (s_logs (ss_song st1)) (s_logs (ss_song st2)) /\
+      length (s_logs (ss_song st1)) = length (s_logs (ss_song st2))
+  | Panic p, Panic q => p = q
+  | OutOfFuel, OutOfFuel => True
+  | Unsupported u, Unsupported v => u = v
+  | _, _ => False
+  end.
+Proof. exact language_script_only_in_log. Qed.
+
 (* ---- non-vacuity ---- *)
 (* a lookup that finds something, in the table and in its reversal; the hypothesis of distinct names is needed *)
 Example C08_example_lookup :
@@ -138,6 +222,47 @@ Example C08_example_random :
    rs_seed s = Nat.iter 3 rand_next SAKURA_DEFAULT_RANDOM_SEED /\ rs_seed s <> SAKURA_DEFAULT_RANDOM_SEED).
 Proof. split; [reflexivity|]. split; [vm_compute; split; reflexivity|]. split; [vm_compute; reflexivity | vm_compute; discriminate]. Qed.
 
+(* the language DOES change the log: one source, the same bytes, two different log texts (an unknown character, an unknown
+   word, a missing parenthesis, a SysEx without values), both of four entries; `compile` is the English run *)
+Example C08_example_language :
+  let src := zs "c!de Foo TR(1 SysEx= " in
+  exists bytes log_ja log_en,
+    compile_lang true src = Ok (bytes, log_ja) /\ compile_lang false src = Ok (bytes, log_en) /\ compile src = Ok (bytes, log_en) /\
+  log_ja <> log_en /\
+  match run_source_lang true src, run_source_lang false src with
+    | Ok s1, Ok s2 => length (s_logs s1) = 4%nat /\ length (s_logs s2) = 4%nat /\ s_ja s1 = true /\ s_ja s2 = false
+    | _, _ => False
+    end.
+Proof.
+  cbv zeta.
+  destruct (compile_lang true (zs "c!de Foo TR(1 SysEx= ")) as [[b1 l1]| | |] eqn:E1; try (vm_compute in E1; discriminate E1).
+  destruct (compile_lang false (zs "c!de Foo TR(1 SysEx= ")) as [[b2 l2]| | |] eqn:E2; try (vm_compute in E2; discriminate E2).
+  exists b1, l1, l2. vm_compute in E1. vm_compute in E2. injection E1 as <- <-. injection E2 as <- <-.
+  split; [reflexivity|]. split; [reflexivity|]. split; [vm_compute; reflexivity|]. split; [discriminate|].
+  vm_compute. repeat split; reflexivity.
+Qed.
+
+(* the script layer: a redefined function (a warning), a type mismatch, PRINT - the same bytes, two wordings, three entries *)
+Example C08_example_language_script :
+  let src := zs "FUNCTION F(){ c } FUNCTION F(){ d } INT A=(1,2) PRINT(A) F()" in
+  exists bytes log_ja log_en,
+    compile_script_lang true src = Ok (bytes, log_ja) /\ compile_script_lang false src = Ok (bytes, log_en) /\
+    compile_script src = Ok (bytes, log_en) /\ log_ja <> log_en /\
+    match run_script_lang true src, run_script_lang false src with
+    | Ok s1, Ok s2 => length (s_logs (ss_song s1)) = 3%nat /\ length (s_logs (ss_song s2)) = 3%nat
+    | _, _ => False
+    end.
+Proof.
+  cbv zeta.
+  destruct (compile_script_lang true (zs "FUNCTION F(){ c } FUNCTION F(){ d } INT A=(1,2) PRINT(A) F()")) as [[b1 l1]| | |] eqn:E1;
+    try (vm_compute in E1; discriminate E1).
+  destruct (compile_script_lang false (zs "FUNCTION F(){ c } FUNCTION F(){ d } INT A=(1,2) PRINT(A) F()")) as [[b2 l2]| | |] eqn:E2;
+    try (vm_compute in E2; discriminate E2).
+  exists b1, l1, l2. vm_compute in E1. vm_compute in E2. injection E1 as <- <-. injection E2 as <- <-.
+  split; [reflexivity|]. split; [reflexivity|]. split; [vm_compute; reflexivity|]. split; [discriminate|].
+  vm_compute. split; reflexivity.
+Qed.
+
 Print Assumptions C08_lookup_order_independent.
 Print Assumptions C08_lookup_spec.
 Print Assumptions C08_table_names_distinct.
@@ -148,3 +273,9 @@ Print Assumptions C08_random_seeded.
 Print Assumptions C08_seed_orbit.
 Print Assumptions C08_draw_consumes.
 Print Assumptions C08_write_sites.
+Print Assumptions C08_text_relation.
+Print Assumptions C08_language_lexer.
+Print Assumptions C08_language_noninterference.
+Print Assumptions C08_language_only_in_log.
+Print Assumptions C08_language_script_noninterference.
+Print Assumptions C08_language_script_only_in_log.
